@@ -9,6 +9,7 @@ CONSTANTS
   CtxMayExpire = TRUE
   ClientMayClose = TRUE
   HandlerMayClose = FALSE
+  StartMayFail = FALSE
   SeqRestart = FALSE
   Bug = "none"
   TrackAct = TRUE
@@ -17,4 +18,4 @@ NEXT Next
 VIEW View
 CHECK_DEADLOCK FALSE
 INVARIANTS TypeOK GracefulReturn RepliesDelivered ServeReturnsNil OneLoopPerGeneration LockDiscipline NoCrash PromptUnblock NothingLeft
-PROPERTIES NoHandlerStartAfterShutdownReturned StartTwiceErrors ShutdownNotStartedErrors
+PROPERTIES NoHandlerStartAfterShutdownReturned StartTwiceErrors ShutdownNotStartedErrors FailedStartLeavesStopped
